@@ -120,6 +120,10 @@ def _flows(fn: FuncInfo, call: ast.Call, kw: str, must_contain: List[str], ld: L
     return all(m in txt for m in must_contain), txt[:80]
 
 
+def enum_member_text(e: ast.AST) -> bool:
+    return isinstance(e, ast.Attribute) and e.attr.isupper() and isinstance(e.value, (ast.Name, ast.Attribute))
+
+
 def r20_2(ctx: Ctx) -> None:
     ix = ctx.ix
     ctx.rule("R20.2", "declared values flow to the object (local dataflow in the loaders)")
@@ -217,7 +221,21 @@ def r20_2(ctx: Ctx) -> None:
                "power_on() of the node being built only on the `operating_state == ON` edge")
     ni = ix.method("Node.__init__")
     st = [n for n in ast.walk(ni.node) if isinstance(n, ast.Assign) and any(unparse(t) == "self.operating_state" for t in n.targets)]
-    ok = bool(st) and all("operating_state" in unparse(s.value) and "config" in unparse(s.value) for s in st)
+
+    def from_cfg(e: ast.AST) -> bool:
+        t = unparse(e)
+        return "operating_state" in t and "config" in t
+
+    bound = {x.target.id for x in ast.walk(ni.node) if isinstance(x, ast.NamedExpr) and from_cfg(x.value)} | {
+        t.id for x in ast.walk(ni.node) if isinstance(x, ast.Assign) and from_cfg(x.value) for t in x.targets if isinstance(t, ast.Name)}
+
+    def derived(e: ast.AST) -> bool:
+        return from_cfg(e) or any(isinstance(x, ast.Name) and x.id in bound for x in ast.walk(e))
+
+    # a constant state is a default: acceptable in an arm of a test on the declared value (`ON if not declared else State[declared]`,
+    # written as an expression or as a statement)
+    guarded = {id(a) for i in ast.walk(ni.node) if isinstance(i, ast.If) and derived(i.test) for arm in (i.body, i.orelse) for a in arm}
+    ok = bool(st) and any(derived(s.value) for s in st) and all(derived(s.value) or (enum_member_text(s.value) and id(s) in guarded) for s in st)
     ctx.record("R20.2", ctx.key(ni, "declared operating_state reaches the node"), ni.loc(), ok, f"{[unparse(s.value)[:70] for s in st]}")
     # routes
     for spec in ("Router.from_config", "Firewall.from_config"):
